@@ -253,3 +253,39 @@ def plain_checks(names):
     thash = tree_hash()
     with ThreadPoolExecutor(max_workers=8) as ex:
         return dict(zip(names, ex.map(lambda n: plain_check(n, thash), names)))
+
+
+def disambiguate_shorts(facts):
+    """Two definitions may share a short name (free helper functions of the same name in two modules). Anchors and callee
+    references are by short name, so the later definitions get their full path as short name, and so do the calls that
+    resolve to them. In place; returns the renamed paths."""
+    seen, dup = {}, {}
+    for rec in facts.get("fns", []):
+        sh = rec.get("short")
+        if sh in seen and seen[sh] != rec.get("path"):
+            dup[rec.get("path")] = sh
+        else:
+            seen.setdefault(sh, rec.get("path"))
+    if not dup:
+        return []
+
+    def walk(node):
+        if isinstance(node, dict):
+            fn = node.get("fn")
+            if isinstance(fn, dict):
+                for pk, sk in (("path", "short"), ("rpath", "rshort")):
+                    if fn.get(pk) in dup and fn.get(sk) == dup[fn[pk]]:
+                        fn[sk] = fn[pk]
+            for v in node.values():
+                walk(v)
+        elif isinstance(node, list):
+            for v in node:
+                walk(v)
+
+    for rec in list(facts.get("fns", [])) + list(facts.get("built", [])):
+        if rec.get("path") in dup and rec.get("short") == dup[rec["path"]]:
+            rec["short"] = rec["path"]
+        if rec.get("enclosing_fn") in dup.values():
+            pass
+        walk(rec.get("mir"))
+    return sorted(dup)
